@@ -2556,7 +2556,1985 @@ func writeFuncs(repo string, trieFiles []*ast.File, info *types.Info, out string
 			return translateCallArgInline(idxInfo, idxFiles, funcDecl(idxFiles, "SlimIndex", m), "si.DataReader.Read", 0, "slimIndex"+m+"Offset")
 		})
 	}
+	// whole functions of the query path (W-mode, below)
+	writeWhole(&b, info, trieFiles, wTargets)
 	b.WriteString("end Generated\n")
 	must(os.WriteFile(out, []byte(b.String()), 0o644))
 	fmt.Printf("funcs written: %d bytes\n", b.Len())
+}
+
+// ======================================================================================
+// W-mode: WHOLE functions, with their control skeleton and their panics
+// ======================================================================================
+//
+// The definitions above translate arithmetic fragments into total functions (an index out of range
+// reads a default).  W-mode translates a whole function or method — every branch, early return,
+// panic, nil dereference, index and slice bound, and the calls it makes — into the `Option` monad
+// (`none` = the Go function panics), into `namespace Generated.W` of Funcs.lean:
+//
+//	struct types                  generated `structure`s (fields of unsupported types are left out; a
+//	                              function that reads one is not translated)
+//	*T field / local              Option T;   `p.f`, `p.m(…)` through it: `let t ← Go.deref p`
+//	receiver, *T parameter        a value of type T (non-nil: the caller has dereferenced it); if the
+//	                              function assigns its fields (directly or through a callee) the
+//	                              updated value is returned, before the declared results
+//	x := &T{…}                    a local value of type T
+//	a[i], a[lo:hi]                `let t ← Go.idxS w a i` …: bounds are checked
+//	panic(…)                      Go.panic
+//	a && b, a || b                the effects of b happen only if b is evaluated
+//	calls                         of functions / methods of the package: translated first (on demand),
+//	                              then called; of the external functions listed in wExterns: the
+//	                              specification functions of lean/Generated/GoSem.lean
+//	for { … break … }             a fuel-recursive definition `<f>_loop<k>` (fuel is an extra FIRST
+//	                              parameter of the translated function; running out of fuel is `none`)
+//
+// Integers are bit patterns as above; every result is returned as a pattern (no `Go.toS`).
+// Not supported (the function is skipped with a note): writes through a pointer that is not a
+// parameter or a local `&T{}`, element assignment, closures, goroutines, defer, switch, labels,
+// non-constant signed shift counts, division by a non-constant, shadowing of a live local.
+
+type wkind int
+
+const (
+	wkInt wkind = iota
+	wkBool
+	wkList   // []T of integers, []byte, string: List Nat
+	wkStruct // a struct value (also: a non-nil pointer parameter, a local &T{})
+	wkPtr    // a pointer to a struct that may be nil: Option T
+	wkPtrL   // a pointer to a slice of integers that may be nil (`path *[]int32`): Option (List Nat)
+)
+
+type wty struct {
+	k    wkind
+	it   intTy  // wkInt: the type; wkList: the element type
+	name string // wkStruct, wkPtr
+}
+
+func (a wty) lean() string {
+	switch a.k {
+	case wkInt:
+		return "Nat"
+	case wkBool:
+		return "Bool"
+	case wkList:
+		return "List Nat"
+	case wkStruct:
+		return a.name
+	case wkPtrL:
+		return "Option (List Nat)"
+	}
+	return "Option " + a.name
+}
+
+func (a wty) leanArg() string {
+	if a.k == wkPtr || a.k == wkPtrL {
+		return "(" + a.lean() + ")"
+	}
+	if a.k == wkList {
+		return "(List Nat)"
+	}
+	return a.lean()
+}
+
+func (a wty) String() string {
+	switch a.k {
+	case wkInt:
+		return fmt.Sprintf("int(%d,%v)", a.it.w, a.it.signed)
+	case wkBool:
+		return "bool"
+	case wkList:
+		return fmt.Sprintf("[]int(%d,%v)", a.it.w, a.it.signed)
+	case wkStruct:
+		return a.name
+	case wkPtrL:
+		return fmt.Sprintf("*[]int(%d,%v)", a.it.w, a.it.signed)
+	}
+	return "*" + a.name
+}
+
+type wfield struct {
+	name string
+	ty   wty
+	goTy string
+}
+
+type wstruct struct {
+	name    string
+	fields  []wfield
+	skipped []string
+}
+
+func (s *wstruct) field(name string) (wfield, bool) {
+	for _, f := range s.fields {
+		if f.name == name {
+			return f, true
+		}
+	}
+	return wfield{}, false
+}
+
+type wparam struct {
+	name string
+	obj  types.Object
+	ty   wty
+	ptr  bool // declared as *T
+}
+
+type wfunc struct {
+	key        string
+	lean       string
+	params     []wparam // the receiver first
+	mut        []int    // parameters that are returned (their fields are assigned)
+	results    []wty
+	fuel       bool // has a leading fuel parameter
+	derefFirst bool // the first statement dereferences the receiver
+}
+
+type wctx struct {
+	info    *types.Info
+	files   []*ast.File
+	structs map[string]*wstruct
+	sorder  []string
+	funcs   map[string]*wfunc
+	busy    map[string]bool
+	failed  map[string]string
+	defs    []string // texts of the function definitions, in dependency order
+}
+
+func newWctx(info *types.Info, files []*ast.File) *wctx {
+	return &wctx{info: info, files: files, structs: map[string]*wstruct{}, funcs: map[string]*wfunc{},
+		busy: map[string]bool{}, failed: map[string]string{}}
+}
+
+// external functions with ASSUMED semantics (lean/Generated/GoSem.lean)
+type wext struct {
+	pkg    string // import path
+	lean   string
+	args   []wty
+	res    []wty
+	effect bool // may panic: the result is bound with ←
+}
+
+var (
+	wI32  = wty{k: wkInt, it: intTy{32, true}}
+	wI64  = wty{k: wkInt, it: intTy{64, true}}
+	wU8   = wty{k: wkInt, it: intTy{8, false}}
+	wU64  = wty{k: wkInt, it: intTy{64, false}}
+	wL64  = wty{k: wkList, it: intTy{64, false}}
+	wL32  = wty{k: wkList, it: intTy{32, true}}
+	wByts = wty{k: wkList, it: intTy{8, false}}
+	wBool = wty{k: wkBool}
+)
+
+var wExterns = map[string]wext{
+	"bitmap.Rank64":      {"github.com/openacid/low/bitmap", "Go.rank64", []wty{wL64, wL32, wI32}, []wty{wI32, wI32}, true},
+	"bitmap.Rank128":     {"github.com/openacid/low/bitmap", "Go.rank128", []wty{wL64, wL32, wI32}, []wty{wI32, wI32}, true},
+	"bitmap.Select32R64": {"github.com/openacid/low/bitmap", "Go.select32R64", []wty{wL64, wL32, wL32, wI32}, []wty{wI32, wI32}, true},
+	"bitstr.Len":         {"github.com/openacid/low/bitstr", "Go.bitstrLen", []wty{wByts}, []wty{wI32}, true},
+	"bits.OnesCount64":   {"math/bits", "Go.popcount64", []wty{wU64}, []wty{wI64}, false},
+	"bytes.Equal":        {"bytes", "Go.bytesEqual", []wty{wByts, wByts}, []wty{wBool}, false},
+	"bytes.Compare":      {"bytes", "Go.bytesCompare", []wty{wByts, wByts}, []wty{wI64}, false},
+}
+
+func (c *wctx) typeOf(t types.Type) (wty, bool) {
+	if t == nil {
+		return wty{}, false
+	}
+	if it, ok := intTypeOf(t); ok {
+		return wty{k: wkInt, it: it}, true
+	}
+	if isBool(t) {
+		return wBool, true
+	}
+	switch u := t.Underlying().(type) {
+	case *types.Basic:
+		if u.Kind() == types.String {
+			return wByts, true
+		}
+	case *types.Slice:
+		if it, ok := intTypeOf(u.Elem()); ok {
+			return wty{k: wkList, it: it}, true
+		}
+	case *types.Pointer:
+		if n, ok := u.Elem().(*types.Named); ok {
+			if s := c.structOf(n); s != nil {
+				return wty{k: wkPtr, name: s.name}, true
+			}
+		}
+		if sl, ok := u.Elem().Underlying().(*types.Slice); ok {
+			if it, ok := intTypeOf(sl.Elem()); ok {
+				return wty{k: wkPtrL, it: it}, true
+			}
+		}
+	case *types.Struct:
+		if n, ok := t.(*types.Named); ok {
+			if s := c.structOf(n); s != nil {
+				return wty{k: wkStruct, name: s.name}, true
+			}
+		}
+	}
+	return wty{}, false
+}
+
+func (c *wctx) structOf(n *types.Named) *wstruct {
+	name := n.Obj().Name()
+	if s, ok := c.structs[name]; ok {
+		return s // nil while the struct is being built: a recursive type is not supported
+	}
+	st, ok := n.Underlying().(*types.Struct)
+	if !ok {
+		return nil
+	}
+	c.structs[name] = nil
+	s := &wstruct{name: name}
+	for i := 0; i < st.NumFields(); i++ {
+		f := st.Field(i)
+		ft, ok := c.typeOf(f.Type())
+		if !ok || f.Embedded() || strings.HasPrefix(f.Name(), "XXX_") {
+			// (XXX_…: bookkeeping fields of the protobuf runtime, no function of the package reads them)
+			s.skipped = append(s.skipped, f.Name())
+			continue
+		}
+		s.fields = append(s.fields, wfield{name: f.Name(), ty: ft, goTy: types.TypeString(f.Type(), func(*types.Package) string { return "" })})
+	}
+	if len(s.fields) == 0 {
+		delete(c.structs, name)
+		return nil
+	}
+	c.structs[name] = s
+	c.sorder = append(c.sorder, name)
+	return s
+}
+
+func (c *wctx) zero(t wty) string {
+	switch t.k {
+	case wkInt:
+		return "0"
+	case wkBool:
+		return "false"
+	case wkList:
+		return "[]"
+	case wkPtr, wkPtrL:
+		return "none"
+	}
+	s := c.structs[t.name]
+	var fs []string
+	for _, f := range s.fields {
+		fs = append(fs, fmt.Sprintf("%s := %s", leanName(f.name), c.zero(f.ty)))
+	}
+	return "{ " + strings.Join(fs, ", ") + " }"
+}
+
+func (c *wctx) structText(s *wstruct) string {
+	var b strings.Builder
+	fmt.Fprintf(&b, "structure %s where\n", s.name)
+	for _, f := range s.fields {
+		fmt.Fprintf(&b, "  %s : %s  -- %s\n", leanName(f.name), f.ty.lean(), f.goTy)
+	}
+	if len(s.skipped) > 0 {
+		fmt.Fprintf(&b, "  -- not represented: %s\n", strings.Join(s.skipped, ", "))
+	}
+	b.WriteString("  deriving Repr, DecidableEq\n")
+	return b.String()
+}
+
+func wkey(recv, name string) string {
+	if recv == "" {
+		return name
+	}
+	return recv + "." + name
+}
+
+// findFunc: the declaration of a function / method of the package, or nil
+func (c *wctx) findFunc(recv, name string) *ast.FuncDecl {
+	var found *ast.FuncDecl
+	for _, f := range c.files {
+		for _, d := range f.Decls {
+			fd, ok := d.(*ast.FuncDecl)
+			if !ok || fd.Name.Name != name || fd.Body == nil {
+				continue
+			}
+			r := ""
+			if fd.Recv != nil && len(fd.Recv.List) > 0 {
+				r = recvType(fd.Recv.List[0].Type)
+			}
+			if r == recv {
+				if found != nil {
+					return nil
+				}
+				found = fd
+			}
+		}
+	}
+	return found
+}
+
+// need translates a function of the package (once) and returns its signature.
+func (c *wctx) need(recv, name string) *wfunc {
+	key := wkey(recv, name)
+	if f, ok := c.funcs[key]; ok {
+		return f
+	}
+	if why, ok := c.failed[key]; ok {
+		fail(key + " (called): " + why)
+	}
+	if c.busy[key] {
+		fail(key + ": recursive call")
+	}
+	fd := c.findFunc(recv, name)
+	if fd == nil {
+		fail(key + ": no (unique) declaration with a body")
+	}
+	c.busy[key] = true
+	defer delete(c.busy, key)
+	var f *wfunc
+	var text string
+	func() {
+		defer func() {
+			if r := recover(); r != nil {
+				msg := fmt.Sprint(r)
+				if ge, ok := r.(groupError); ok {
+					msg = ge.msg
+				}
+				c.failed[key] = msg
+				panic(groupError{msg})
+			}
+		}()
+		f, text = c.translate(key, fd)
+	}()
+	c.funcs[key] = f
+	c.defs = append(c.defs, text)
+	return f
+}
+
+type wvar struct {
+	name string
+	ty   wty
+}
+
+type wtr struct {
+	c     *wctx
+	f     *wfunc
+	fd    *ast.FuncDecl
+	env   map[types.Object]wvar
+	live  map[string]types.Object
+	tmp   int
+	pre   []string
+	loops int
+	aux   []string
+	fuel  bool
+	// inside a loop body: how `break` / `continue` / falling off the end of the body continue
+	brk    func(ind string) []string
+	cont   func(ind string) []string
+	inLoop bool
+}
+
+func (w *wtr) fail(n ast.Node, why string) {
+	fail(fmt.Sprintf("%s: %s: %s", w.f.key, why, src(n)))
+}
+
+func (w *wtr) obj(id *ast.Ident) types.Object {
+	if o := w.c.info.Uses[id]; o != nil {
+		return o
+	}
+	return w.c.info.Defs[id]
+}
+
+func (w *wtr) fresh() string {
+	w.tmp++
+	return fmt.Sprintf("t%d_", w.tmp)
+}
+
+func (w *wtr) bind(rhs string) string {
+	t := w.fresh()
+	w.pre = append(w.pre, fmt.Sprintf("let %s ← %s", t, rhs))
+	return t
+}
+
+func (w *wtr) takePre() []string {
+	p := w.pre
+	w.pre = nil
+	return p
+}
+
+func (w *wtr) declare(id *ast.Ident, ty wty) string {
+	o := w.c.info.Defs[id]
+	if o == nil {
+		w.fail(id, "declaration without an object")
+	}
+	n := leanName(id.Name)
+	if strings.HasSuffix(n, "_") && len(n) > 2 && n[0] == 't' {
+		if _, err := fmt.Sscanf(n, "t%d_", new(int)); err == nil {
+			w.fail(id, "a local is named like a generated temporary")
+		}
+	}
+	if old, ok := w.live[n]; ok && old != o {
+		w.fail(id, "a local shadows a live variable of the same name")
+	}
+	w.env[o] = wvar{n, ty}
+	w.live[n] = o
+	return n
+}
+
+func (w *wtr) saveEnv() (map[types.Object]wvar, map[string]types.Object) {
+	e := map[types.Object]wvar{}
+	for k, v := range w.env {
+		e[k] = v
+	}
+	l := map[string]types.Object{}
+	for k, v := range w.live {
+		l[k] = v
+	}
+	return e, l
+}
+
+func (w *wtr) isPkg(e ast.Expr, path string) bool {
+	id, ok := e.(*ast.Ident)
+	if !ok {
+		return false
+	}
+	pn, ok := w.c.info.Uses[id].(*types.PkgName)
+	return ok && pn.Imported() != nil && pn.Imported().Path() == path
+}
+
+// constant: the pattern of a constant expression in the integer type `want` (or its own type)
+func (w *wtr) constant(e ast.Expr, want *wty) (string, wty, bool) {
+	tv := w.c.info.Types[e]
+	if tv.Value == nil {
+		return "", wty{}, false
+	}
+	if tv.Value.Kind() == constant.Bool {
+		if constant.BoolVal(tv.Value) {
+			return "true", wBool, true
+		}
+		return "false", wBool, true
+	}
+	if constant.ToInt(tv.Value).Kind() != constant.Int {
+		w.fail(e, "constant that is neither an integer nor a bool")
+	}
+	var ty wty
+	if it, ok := intTypeOf(tv.Type); ok {
+		if b, isB := tv.Type.(*types.Basic); !(isB && b.Info()&types.IsUntyped != 0) {
+			ty = wty{k: wkInt, it: it}
+		}
+	}
+	if ty.it.w == 0 {
+		if want == nil || want.k != wkInt {
+			w.fail(e, "untyped constant in a context without an integer type")
+		}
+		ty = *want
+	}
+	// the constant must be representable (Go checks this at compile time for typed constants)
+	s := pattern(tv.Value, ty.it.w)
+	if s == "" {
+		w.fail(e, "constant")
+	}
+	return s, ty, true
+}
+
+func (w *wtr) intConv(e ast.Expr) (intTy, bool) {
+	// T(x) with T an integer type
+	c, ok := e.(*ast.CallExpr)
+	if !ok || len(c.Args) != 1 {
+		return intTy{}, false
+	}
+	if tv := w.c.info.Types[c.Fun]; tv.IsType() {
+		return intTypeOf(tv.Type)
+	}
+	if id, ok := c.Fun.(*ast.Ident); ok {
+		if tn, ok := w.obj(id).(*types.TypeName); ok {
+			return intTypeOf(tn.Type())
+		}
+	}
+	return intTy{}, false
+}
+
+// expr translates an expression; the effects it needs (index checks, dereferences, calls that may
+// panic) are appended to w.pre as `let t ← …` lines, in evaluation order.
+func (w *wtr) expr(e ast.Expr, want *wty) (string, wty) {
+	if p, ok := e.(*ast.ParenExpr); ok {
+		return w.expr(p.X, want)
+	}
+	if s, ty, ok := w.constant(e, want); ok {
+		return s, ty
+	}
+	switch x := e.(type) {
+	case *ast.Ident:
+		if x.Name == "nil" {
+			w.fail(e, "nil outside a comparison")
+		}
+		o := w.obj(x)
+		if v, ok := w.env[o]; ok && o != nil {
+			return v.name, v.ty
+		}
+		w.fail(e, "identifier that is neither a parameter nor a local")
+	case *ast.SelectorExpr:
+		if id, ok := x.X.(*ast.Ident); ok {
+			if _, isPkg := w.c.info.Uses[id].(*types.PkgName); isPkg {
+				w.fail(e, "member of a package")
+			}
+		}
+		s, ty := w.expr(x.X, nil)
+		if ty.k == wkPtr {
+			s = w.bind("Go.deref " + s)
+			ty = wty{k: wkStruct, name: ty.name}
+		}
+		if ty.k != wkStruct {
+			w.fail(e, "selection on something that is not a struct")
+		}
+		f, ok := w.c.structs[ty.name].field(x.Sel.Name)
+		if !ok {
+			w.fail(e, "field that is not represented")
+		}
+		return s + "." + leanName(f.name), f.ty
+	case *ast.IndexExpr:
+		if sel, ok := x.X.(*ast.SelectorExpr); ok && w.isPkg(sel.X, "github.com/openacid/low/bitmap") {
+			var fn string
+			switch sel.Sel.Name {
+			case "Mask":
+				fn = "Go.maskAt"
+			case "Bit":
+				fn = "Go.bitAt"
+			default:
+				w.fail(e, "table of package bitmap without a specification")
+			}
+			k, kty := w.expr(x.Index, &wI64)
+			if kty.k != wkInt {
+				w.fail(e, "index")
+			}
+			return w.bind(fmt.Sprintf("%s %s", fn, k)), wU64
+		}
+		a, aty := w.expr(x.X, nil)
+		if aty.k != wkList {
+			w.fail(e, "indexing of something that is not a slice or string")
+		}
+		i, ity := w.expr(x.Index, &wI64)
+		if ity.k != wkInt {
+			w.fail(e, "index")
+		}
+		if ity.it.signed {
+			return w.bind(fmt.Sprintf("Go.idxS %d %s %s", ity.it.w, a, i)), wty{k: wkInt, it: aty.it}
+		}
+		return w.bind(fmt.Sprintf("Go.idxU %s %s", a, i)), wty{k: wkInt, it: aty.it}
+	case *ast.SliceExpr:
+		if x.Slice3 {
+			w.fail(e, "3-index slice")
+		}
+		a, aty := w.expr(x.X, nil)
+		if aty.k != wkList {
+			w.fail(e, "slicing of something that is not a slice or string")
+		}
+		var lo, hi string
+		var lty, hty wty
+		if x.Low != nil {
+			lo, lty = w.expr(x.Low, &wI64)
+		}
+		if x.High != nil {
+			hi, hty = w.expr(x.High, &wI64)
+		}
+		for _, t := range []wty{lty, hty} {
+			if t.it.w != 0 && (t.k != wkInt || !t.it.signed) {
+				w.fail(e, "slice bound of an unsigned type")
+			}
+		}
+		switch {
+		case x.Low == nil && x.High == nil:
+			return a, aty
+		case x.High == nil:
+			return w.bind(fmt.Sprintf("Go.sliceFromS %d %s %s", lty.it.w, a, lo)), aty
+		case x.Low == nil:
+			return w.bind(fmt.Sprintf("Go.sliceToS %d %s %s", hty.it.w, a, hi)), aty
+		}
+		if lty.it != hty.it {
+			w.fail(e, "slice bounds of different types")
+		}
+		return w.bind(fmt.Sprintf("Go.sliceS %d %s %s %s", lty.it.w, a, lo, hi)), aty
+	case *ast.CompositeLit:
+		t, ok := w.c.typeOf(w.c.info.Types[x].Type)
+		if ok && t.k == wkList && len(x.Elts) == 0 {
+			return "[]", t
+		}
+		if ok && t.k == wkStruct {
+			return w.structLit(x, t), t
+		}
+		w.fail(e, "composite literal")
+	case *ast.StarExpr:
+		s, ty := w.expr(x.X, nil)
+		if ty.k != wkPtrL {
+			w.fail(e, "dereference of something that is not a pointer to a slice")
+		}
+		return w.bind("Go.deref " + s), wty{k: wkList, it: ty.it}
+	case *ast.UnaryExpr:
+		switch x.Op {
+		case token.AND:
+			if cl, ok := x.X.(*ast.CompositeLit); ok {
+				return w.expr(cl, nil) // &T{…}: a fresh, non-nil value
+			}
+			w.fail(e, "address of something that is not a composite literal")
+		case token.NOT:
+			a, aty := w.expr(x.X, nil)
+			if aty.k != wkBool {
+				w.fail(e, "! of something that is not a bool")
+			}
+			return "(!" + a + ")", wBool
+		case token.ADD, token.SUB, token.XOR:
+			a, aty := w.expr(x.X, want)
+			if aty.k != wkInt {
+				w.fail(e, "unary operator on something that is not an integer")
+			}
+			switch x.Op {
+			case token.SUB:
+				return fmt.Sprintf("(Go.neg %d %s)", aty.it.w, a), aty
+			case token.XOR:
+				return fmt.Sprintf("(Go.not %d %s)", aty.it.w, a), aty
+			}
+			return a, aty
+		}
+		w.fail(e, "unary operator")
+	case *ast.BinaryExpr:
+		return w.binary(x, want)
+	case *ast.CallExpr:
+		if to, ok := w.intConv(e); ok {
+			a, aty := w.expr(x.Args[0], &wty{k: wkInt, it: to})
+			if aty.k != wkInt {
+				w.fail(e, "conversion of something that is not an integer")
+			}
+			if aty.it == to {
+				return a, aty
+			}
+			return fmt.Sprintf("(Go.conv %d %v %d %s)", aty.it.w, aty.it.signed, to.w, a), wty{k: wkInt, it: to}
+		}
+		if tv := w.c.info.Types[x.Fun]; tv.IsType() && len(x.Args) == 1 {
+			if t, ok := w.c.typeOf(tv.Type); ok && t.k == wkList && t.it == (intTy{8, false}) {
+				a, aty := w.expr(x.Args[0], nil) // []byte(s), string(b): the same bytes
+				if aty.k != wkList || aty.it != t.it {
+					w.fail(e, "conversion to a byte sequence")
+				}
+				return a, aty
+			}
+			w.fail(e, "conversion")
+		}
+		if id, ok := x.Fun.(*ast.Ident); ok && id.Name == "append" && w.obj(id) == types.Universe.Lookup("append") {
+			if len(x.Args) != 2 || x.Ellipsis.IsValid() {
+				w.fail(e, "append (only append(s, e))")
+			}
+			a, aty := w.expr(x.Args[0], nil)
+			if aty.k != wkList {
+				w.fail(e, "append to something that is not a slice")
+			}
+			ety := wty{k: wkInt, it: aty.it}
+			v, vty := w.expr(x.Args[1], &ety)
+			if vty != ety {
+				w.fail(e, "append of an element of another type")
+			}
+			return fmt.Sprintf("(%s ++ [%s])", a, v), aty
+		}
+		if id, ok := x.Fun.(*ast.Ident); ok && id.Name == "len" && w.obj(id) == types.Universe.Lookup("len") {
+			if len(x.Args) != 1 {
+				w.fail(e, "len")
+			}
+			a, aty := w.expr(x.Args[0], nil)
+			if aty.k != wkList {
+				w.fail(e, "len of something that is not a slice or string")
+			}
+			return fmt.Sprintf("(%s.length)", a), wI64
+		}
+		rs, tys := w.call(x)
+		if len(rs) != 1 {
+			w.fail(e, "call with other than one result in an expression")
+		}
+		return rs[0], tys[0]
+	}
+	w.fail(e, "unsupported expression")
+	return "", wty{}
+}
+
+func (w *wtr) structLit(x *ast.CompositeLit, t wty) string {
+	s := w.c.structs[t.name]
+	vals := map[string]string{}
+	for _, el := range x.Elts {
+		kv, ok := el.(*ast.KeyValueExpr)
+		if !ok {
+			w.fail(x, "struct literal without field names")
+		}
+		f, ok := s.field(src(kv.Key))
+		if !ok {
+			w.fail(x, "field that is not represented")
+		}
+		v, vty := w.expr(kv.Value, &f.ty)
+		if vty != f.ty {
+			w.fail(kv, "field value of another type")
+		}
+		vals[f.name] = v
+	}
+	if len(s.skipped) > 0 && len(x.Elts) > 0 {
+		// (a literal that sets only represented fields is fine; one that sets a skipped field failed above)
+	}
+	var fs []string
+	for _, f := range s.fields {
+		v, ok := vals[f.name]
+		if !ok {
+			v = w.c.zero(f.ty)
+		}
+		fs = append(fs, fmt.Sprintf("%s := %s", leanName(f.name), v))
+	}
+	return "({ " + strings.Join(fs, ", ") + " } : " + t.name + ")"
+}
+
+func isConstExpr(info *types.Info, e ast.Expr) bool { return info.Types[e].Value != nil }
+
+func (w *wtr) binary(x *ast.BinaryExpr, want *wty) (string, wty) {
+	switch x.Op {
+	case token.LAND, token.LOR:
+		a, aty := w.expr(x.X, nil)
+		saved := w.pre
+		w.pre = nil
+		b, bty := w.expr(x.Y, nil)
+		inner := w.pre
+		w.pre = saved
+		if aty.k != wkBool || bty.k != wkBool {
+			w.fail(x, "&& / || of something that is not a bool")
+		}
+		if len(inner) == 0 {
+			if x.Op == token.LAND {
+				return "(" + a + " && " + b + ")", wBool
+			}
+			return "(" + a + " || " + b + ")", wBool
+		}
+		// the right operand has effects: they happen only when it is evaluated
+		body := "(do " + strings.Join(inner, "; ") + "; pure " + b + ")"
+		if x.Op == token.LAND {
+			return w.bind(fmt.Sprintf("(if %s then %s else pure false)", a, body)), wBool
+		}
+		return w.bind(fmt.Sprintf("(if %s then pure true else %s)", a, body)), wBool
+	case token.EQL, token.NEQ:
+		if isNil(x.X) || isNil(x.Y) {
+			o := x.X
+			if isNil(x.X) {
+				o = x.Y
+			}
+			s, ty := w.expr(o, nil)
+			if ty.k != wkPtr && ty.k != wkPtrL {
+				w.fail(x, "comparison with nil of something that is not a nil-able pointer")
+			}
+			if x.Op == token.EQL {
+				return "(" + s + ".isNone)", wBool
+			}
+			return "(" + s + ".isSome)", wBool
+		}
+		fallthrough
+	case token.LSS, token.LEQ, token.GTR, token.GEQ:
+		a, b, ty := w.operands(x, nil)
+		switch {
+		case ty.k == wkBool && (x.Op == token.EQL || x.Op == token.NEQ):
+		case ty.k == wkInt:
+		default:
+			w.fail(x, "comparison of unsupported operands")
+		}
+		lt := func(p, q string) string {
+			if ty.it.signed {
+				return fmt.Sprintf("(Go.ltS %d %s %s)", ty.it.w, p, q)
+			}
+			return fmt.Sprintf("(Go.ltU %s %s)", p, q)
+		}
+		le := func(p, q string) string {
+			if ty.it.signed {
+				return fmt.Sprintf("(Go.leS %d %s %s)", ty.it.w, p, q)
+			}
+			return fmt.Sprintf("(Go.leU %s %s)", p, q)
+		}
+		switch x.Op {
+		case token.EQL:
+			return fmt.Sprintf("(%s == %s)", a, b), wBool
+		case token.NEQ:
+			return fmt.Sprintf("(%s != %s)", a, b), wBool
+		case token.LSS:
+			return lt(a, b), wBool
+		case token.LEQ:
+			return le(a, b), wBool
+		case token.GTR:
+			return lt(b, a), wBool
+		}
+		return le(b, a), wBool
+	case token.SHL, token.SHR:
+		a, aty := w.expr(x.X, want)
+		if aty.k != wkInt {
+			w.fail(x, "shift of something that is not an integer")
+		}
+		return w.shift(x, x.Op, a, aty, x.Y), aty
+	case token.ADD, token.SUB, token.MUL, token.AND, token.OR, token.XOR, token.AND_NOT, token.QUO, token.REM:
+		a, b, ty := w.operands(x, want)
+		if ty.k != wkInt {
+			w.fail(x, "arithmetic on something that is not an integer")
+		}
+		return w.arith(x, x.Op, a, b, ty, x.Y), ty
+	}
+	w.fail(x, "binary operator")
+	return "", wty{}
+}
+
+// operands translates both operands of a binary operator that needs identical operand types
+// (left to right; an untyped constant takes the type of the other operand).
+func (w *wtr) operands(x *ast.BinaryExpr, want *wty) (string, string, wty) {
+	var a, b string
+	var aty, bty wty
+	if isConstExpr(w.c.info, x.X) && !isConstExpr(w.c.info, x.Y) {
+		// the constant has no effects: the order of evaluation is not changed
+		b, bty = w.expr(x.Y, want)
+		a, aty = w.expr(x.X, &bty)
+	} else {
+		a, aty = w.expr(x.X, want)
+		b, bty = w.expr(x.Y, &aty)
+	}
+	if aty != bty {
+		w.fail(x, fmt.Sprintf("operands of different types (%v, %v)", aty, bty))
+	}
+	return a, b, aty
+}
+
+func (w *wtr) shift(at ast.Node, op token.Token, a string, aty wty, count ast.Expr) string {
+	var k string
+	if tv := w.c.info.Types[count]; tv.Value != nil {
+		v := constant.ToInt(tv.Value)
+		if v.Kind() != constant.Int || constant.Sign(v) < 0 {
+			w.fail(at, "shift count")
+		}
+		k = v.ExactString()
+	} else {
+		var kty wty
+		k, kty = w.expr(count, nil)
+		if kty.k != wkInt || kty.it.signed {
+			w.fail(at, "shift by a non-constant count of a signed type (panics when negative)")
+		}
+	}
+	switch {
+	case op == token.SHL:
+		return fmt.Sprintf("(Go.shl %d %s %s)", aty.it.w, a, k)
+	case aty.it.signed:
+		return fmt.Sprintf("(Go.sar %d %s %s)", aty.it.w, a, k)
+	}
+	return fmt.Sprintf("(Go.shr %s %s)", a, k)
+}
+
+func (w *wtr) arith(at ast.Node, op token.Token, a, b string, ty wty, divisor ast.Expr) string {
+	n := ty.it.w
+	switch op {
+	case token.ADD:
+		return fmt.Sprintf("(Go.add %d %s %s)", n, a, b)
+	case token.SUB:
+		return fmt.Sprintf("(Go.sub %d %s %s)", n, a, b)
+	case token.MUL:
+		return fmt.Sprintf("(Go.mul %d %s %s)", n, a, b)
+	case token.AND:
+		return fmt.Sprintf("(Go.and %s %s)", a, b)
+	case token.OR:
+		return fmt.Sprintf("(Go.or %s %s)", a, b)
+	case token.XOR:
+		return fmt.Sprintf("(Go.xor %s %s)", a, b)
+	case token.AND_NOT:
+		return fmt.Sprintf("(Go.andNot %d %s %s)", n, a, b)
+	case token.QUO, token.REM:
+		tv := w.c.info.Types[divisor]
+		if tv.Value == nil || constant.Sign(constant.ToInt(tv.Value)) == 0 {
+			w.fail(at, "division by something that is not a non-zero constant (panics on zero)")
+		}
+		f := map[token.Token][2]string{token.QUO: {"divS", "divU"}, token.REM: {"modS", "modU"}}[op]
+		if ty.it.signed {
+			return fmt.Sprintf("(Go.%s %d %s %s)", f[0], n, a, b)
+		}
+		return fmt.Sprintf("(Go.%s %s %s)", f[1], a, b)
+	}
+	w.fail(at, "operator")
+	return ""
+}
+
+// call translates a call of an external function with a specification, or of a function / method
+// of the package; it returns the result terms (bound to temporaries when the call may panic).
+// The parameters of the callee that it mutates are rebound to the updated values.
+func (w *wtr) call(x *ast.CallExpr) ([]string, []wty) {
+	if x.Ellipsis.IsValid() {
+		w.fail(x, "variadic call")
+	}
+	// external
+	if sel, ok := x.Fun.(*ast.SelectorExpr); ok {
+		if id, ok := sel.X.(*ast.Ident); ok {
+			if _, isPkg := w.c.info.Uses[id].(*types.PkgName); isPkg {
+				ext, ok := wExterns[id.Name+"."+sel.Sel.Name]
+				if !ok || !w.isPkg(id, ext.pkg) {
+					w.fail(x, "external function without a specification")
+				}
+				if len(x.Args) != len(ext.args) {
+					w.fail(x, "number of arguments")
+				}
+				var args []string
+				for i, a := range x.Args {
+					s, ty := w.expr(a, &ext.args[i])
+					if ty != ext.args[i] {
+						w.fail(a, fmt.Sprintf("argument of type %v, %v expected", ty, ext.args[i]))
+					}
+					args = append(args, wArg(s))
+				}
+				callS := ext.lean + " " + strings.Join(args, " ")
+				if !ext.effect {
+					return []string{"(" + callS + ")"}, ext.res
+				}
+				if len(ext.res) == 1 {
+					return []string{w.bind(callS)}, ext.res
+				}
+				var ts []string
+				for range ext.res {
+					ts = append(ts, w.fresh())
+				}
+				w.pre = append(w.pre, fmt.Sprintf("let (%s) ← %s", strings.Join(ts, ", "), callS))
+				return ts, ext.res
+			}
+		}
+	}
+	// a function or method of the package
+	var callee *wfunc
+	var args []ast.Expr
+	switch f := x.Fun.(type) {
+	case *ast.Ident:
+		if _, ok := w.obj(f).(*types.Func); !ok {
+			w.fail(x, "call of something that is not a declared function")
+		}
+		callee = w.c.need("", f.Name)
+		args = x.Args
+	case *ast.SelectorExpr:
+		fo, ok := w.c.info.Uses[f.Sel].(*types.Func)
+		if !ok {
+			w.fail(x, "call of something that is not a declared method")
+		}
+		sig := fo.Type().(*types.Signature)
+		if sig.Recv() == nil {
+			w.fail(x, "method value")
+		}
+		rt := sig.Recv().Type()
+		if p, ok := rt.(*types.Pointer); ok {
+			rt = p.Elem()
+		}
+		n, ok := rt.(*types.Named)
+		if !ok {
+			w.fail(x, "receiver type")
+		}
+		callee = w.c.need(n.Obj().Name(), f.Sel.Name)
+		args = append([]ast.Expr{f.X}, x.Args...)
+	default:
+		w.fail(x, "call")
+	}
+	if len(args) != len(callee.params) {
+		w.fail(x, "number of arguments")
+	}
+	var as []string
+	rebind := map[int]types.Object{}
+	for i, a := range args {
+		p := callee.params[i]
+		if isNil(a) && p.ty.k == wkPtrL {
+			as = append(as, "none") // the updated value is dropped below
+			continue
+		}
+		s, ty := w.expr(a, &p.ty)
+		if ty.k == wkPtr && p.ty.k == wkStruct && ty.name == p.ty.name {
+			// a pointer that may be nil is handed to a function that expects a dereferenced value: sound
+			// only if the callee dereferences it before anything else
+			if i != 0 || !callee.derefFirst {
+				w.fail(a, "a pointer that may be nil is passed to a function that does not dereference it first")
+			}
+			s = w.bind("Go.deref " + s)
+			ty = p.ty
+		}
+		if ty != p.ty {
+			w.fail(a, fmt.Sprintf("argument of type %v, %v expected", ty, p.ty))
+		}
+		for _, m := range callee.mut {
+			if m == i {
+				id, ok := a.(*ast.Ident)
+				if !ok || w.obj(id) == nil {
+					w.fail(a, "a value that the callee updates must be a variable")
+				}
+				if _, ok := w.env[w.obj(id)]; !ok {
+					w.fail(a, "a value that the callee updates must be a variable")
+				}
+				rebind[i] = w.obj(id)
+			}
+		}
+		as = append(as, wArg(s))
+	}
+	if callee.fuel {
+		if !w.fuel {
+			w.fail(x, "call of a function with a loop from a function without fuel")
+		}
+		as = append([]string{"fuel"}, as...)
+	}
+	var pats []string
+	var outs []string
+	for _, m := range callee.mut {
+		if o, ok := rebind[m]; ok {
+			pats = append(pats, w.env[o].name)
+		} else {
+			pats = append(pats, "_")
+		}
+	}
+	for range callee.results {
+		t := w.fresh()
+		pats = append(pats, t)
+		outs = append(outs, t)
+	}
+	if len(pats) == 0 {
+		w.fail(x, "call of a function without results or effects")
+	}
+	w.pre = append(w.pre, fmt.Sprintf("let %s ← %s %s", tuple(pats), callee.lean, strings.Join(as, " ")))
+	return outs, callee.results
+}
+
+func wArg(s string) string {
+	if strings.ContainsAny(s, " ") && !(strings.HasPrefix(s, "(") && balancedParen(s)) {
+		return "(" + s + ")"
+	}
+	return s
+}
+
+// balancedParen: does the opening parenthesis at position 0 close at the end?
+func balancedParen(s string) bool {
+	d := 0
+	for i, r := range s {
+		switch r {
+		case '(':
+			d++
+		case ')':
+			d--
+			if d == 0 && i != len(s)-1 {
+				return false
+			}
+		}
+	}
+	return d == 0
+}
+
+// ---- statements ----
+
+func isPanicCall(info *types.Info, s ast.Stmt) bool {
+	es, ok := s.(*ast.ExprStmt)
+	if !ok {
+		return false
+	}
+	c, ok := es.X.(*ast.CallExpr)
+	if !ok {
+		return false
+	}
+	id, ok := c.Fun.(*ast.Ident)
+	return ok && id.Name == "panic" && (info.Uses[id] == nil || info.Uses[id] == types.Universe.Lookup("panic"))
+}
+
+// exits: does the node contain a return, a panic(…), a break or a continue (of an enclosing loop)?
+func (w *wtr) exits(n ast.Node) bool {
+	found := false
+	ast.Inspect(n, func(x ast.Node) bool {
+		switch s := x.(type) {
+		case *ast.ReturnStmt:
+			found = true
+		case *ast.BranchStmt:
+			found = true
+		case *ast.ForStmt, *ast.RangeStmt:
+			// break / continue inside belong to that loop; a return still exits
+			ast.Inspect(s, func(y ast.Node) bool {
+				if _, ok := y.(*ast.ReturnStmt); ok {
+					found = true
+				}
+				if st, ok := y.(ast.Stmt); ok && isPanicCall(w.c.info, st) {
+					found = true
+				}
+				return !found
+			})
+			return false
+		case ast.Stmt:
+			if isPanicCall(w.c.info, s) {
+				found = true
+			}
+		}
+		return !found
+	})
+	return found
+}
+
+// assigned: the variables of the current environment that the statements assign (sorted by name)
+func (w *wtr) assigned(stmts []ast.Stmt) []wvar {
+	set := map[string]wvar{}
+	mark := func(e ast.Expr) {
+		for {
+			switch x := e.(type) {
+			case *ast.ParenExpr:
+				e = x.X
+				continue
+			case *ast.SelectorExpr:
+				e = x.X
+				continue
+			case *ast.IndexExpr:
+				e = x.X
+				continue
+			case *ast.StarExpr:
+				e = x.X
+				continue
+			}
+			break
+		}
+		if id, ok := e.(*ast.Ident); ok {
+			if v, ok := w.env[w.obj(id)]; ok && w.obj(id) != nil {
+				set[v.name] = v
+			}
+		}
+	}
+	for _, s := range stmts {
+		ast.Inspect(s, func(x ast.Node) bool {
+			switch a := x.(type) {
+			case *ast.AssignStmt:
+				for _, l := range a.Lhs {
+					mark(l)
+				}
+			case *ast.IncDecStmt:
+				mark(a.X)
+			case *ast.CallExpr:
+				if f := w.calleeOf(a); f != nil {
+					args := a.Args
+					if _, isSel := a.Fun.(*ast.SelectorExpr); isSel {
+						args = append([]ast.Expr{a.Fun.(*ast.SelectorExpr).X}, a.Args...)
+					}
+					for _, m := range f.mut {
+						if m < len(args) {
+							mark(args[m])
+						}
+					}
+				}
+			}
+			return true
+		})
+	}
+	var names []string
+	for n := range set {
+		names = append(names, n)
+	}
+	sort.Strings(names)
+	var out []wvar
+	for _, n := range names {
+		out = append(out, set[n])
+	}
+	return out
+}
+
+// calleeOf: the signature of the package function / method a call expression calls (translating it
+// if necessary), nil for anything else
+func (w *wtr) calleeOf(x *ast.CallExpr) *wfunc {
+	switch f := x.Fun.(type) {
+	case *ast.Ident:
+		if _, ok := w.obj(f).(*types.Func); ok {
+			return w.c.need("", f.Name)
+		}
+	case *ast.SelectorExpr:
+		if fo, ok := w.c.info.Uses[f.Sel].(*types.Func); ok {
+			if sig, ok := fo.Type().(*types.Signature); ok && sig.Recv() != nil {
+				rt := sig.Recv().Type()
+				if p, ok := rt.(*types.Pointer); ok {
+					rt = p.Elem()
+				}
+				if n, ok := rt.(*types.Named); ok {
+					return w.c.need(n.Obj().Name(), f.Sel.Name)
+				}
+			}
+		}
+	}
+	return nil
+}
+
+func indent(lines []string, ind string) []string {
+	out := make([]string, len(lines))
+	for i, l := range lines {
+		out[i] = ind + l
+	}
+	return out
+}
+
+// retLine: `pure (…)` of the updated parameters followed by the results
+func (w *wtr) retLine(vals []string) string {
+	var all []string
+	for _, m := range w.f.mut {
+		all = append(all, w.env[w.f.params[m].obj].name)
+	}
+	all = append(all, vals...)
+	if len(all) == 0 {
+		fail(w.f.key + ": a function without results or effects")
+	}
+	if w.inLoop {
+		return "pure (Sum.inl " + tuple(all) + ")"
+	}
+	return "pure " + tuple(all)
+}
+
+// block translates a statement list into do-block lines (relative indentation).  `k` yields the
+// lines for falling off the end of the list.
+func (w *wtr) block(stmts []ast.Stmt, k func() []string) []string {
+	if len(stmts) == 0 {
+		return k()
+	}
+	s, rest := stmts[0], stmts[1:]
+	next := func() []string { return w.block(rest, k) }
+	flush := func(lines ...string) []string { return append(w.takePre(), lines...) }
+	switch x := s.(type) {
+	case *ast.EmptyStmt:
+		return next()
+	case *ast.BlockStmt:
+		se, sl := w.saveEnv()
+		return w.block(x.List, func() []string {
+			w.env, w.live = se, sl
+			return next()
+		})
+	case *ast.ReturnStmt:
+		if len(x.Results) == 1 && len(w.f.results) > 1 {
+			// return f(…) of a call with several results
+			c, ok := x.Results[0].(*ast.CallExpr)
+			if !ok {
+				w.fail(s, "return")
+			}
+			rs, tys := w.call(c)
+			if len(rs) != len(w.f.results) {
+				w.fail(s, "number of results")
+			}
+			for i := range tys {
+				if tys[i] != w.f.results[i] {
+					w.fail(s, "result type")
+				}
+			}
+			return flush(w.retLine(rs))
+		}
+		if len(x.Results) != len(w.f.results) {
+			w.fail(s, "number of results (named results are not supported)")
+		}
+		var vals []string
+		for i, r := range x.Results {
+			if isNil(r) && w.f.results[i].k == wkList {
+				vals = append(vals, "[]") // a nil slice has no elements
+				continue
+			}
+			v, ty := w.expr(r, &w.f.results[i])
+			if ty != w.f.results[i] {
+				w.fail(r, fmt.Sprintf("result of type %v, %v expected", ty, w.f.results[i]))
+			}
+			vals = append(vals, v)
+		}
+		return flush(w.retLine(vals))
+	case *ast.BranchStmt:
+		if x.Label != nil {
+			w.fail(s, "label")
+		}
+		switch x.Tok {
+		case token.BREAK:
+			if w.brk == nil {
+				w.fail(s, "break outside a translated loop")
+			}
+			return w.brk("")
+		case token.CONTINUE:
+			if w.cont == nil {
+				w.fail(s, "continue outside a translated loop")
+			}
+			return w.cont("")
+		}
+		w.fail(s, "branch statement")
+	case *ast.ExprStmt:
+		if isPanicCall(w.c.info, s) {
+			return flush("Go.panic")
+		}
+		c, ok := x.X.(*ast.CallExpr)
+		if !ok {
+			w.fail(s, "expression statement")
+		}
+		if strings.HasPrefix(src(c.Fun), "must.Be.") {
+			return next() // a debug assertion (build tag `debug`): no effect
+		}
+		w.call(c) // results are dropped; updated parameters are rebound
+		return append(w.takePre(), next()...)
+	case *ast.DeclStmt:
+		gd, ok := x.Decl.(*ast.GenDecl)
+		if !ok || gd.Tok != token.VAR {
+			w.fail(s, "declaration")
+		}
+		var lines []string
+		for _, sp := range gd.Specs {
+			vs := sp.(*ast.ValueSpec)
+			if len(vs.Values) != 0 && len(vs.Values) != len(vs.Names) {
+				w.fail(s, "declaration")
+			}
+			for i, nm := range vs.Names {
+				var ty wty
+				var val string
+				if vs.Type != nil {
+					t, ok := w.c.typeOf(w.c.info.Types[vs.Type].Type)
+					if !ok {
+						w.fail(s, "local of an unsupported type")
+					}
+					ty, val = t, w.c.zero(t)
+				}
+				if len(vs.Values) > 0 {
+					var vty wty
+					if vs.Type != nil {
+						val, vty = w.expr(vs.Values[i], &ty)
+						if vty != ty {
+							w.fail(s, "initial value of another type")
+						}
+					} else {
+						val, ty = w.expr(vs.Values[i], nil)
+					}
+				} else if vs.Type == nil {
+					w.fail(s, "declaration")
+				}
+				lines = append(lines, w.takePre()...)
+				if nm.Name == "_" {
+					continue
+				}
+				lines = append(lines, fmt.Sprintf("let %s : %s := %s", w.declare(nm, ty), ty.lean(), val))
+			}
+		}
+		return append(lines, next()...)
+	case *ast.IncDecStmt:
+		one := &ast.BasicLit{Kind: token.INT, Value: "1"}
+		w.c.info.Types[one] = types.TypeAndValue{Type: types.Typ[types.UntypedInt], Value: constant.MakeInt64(1)}
+		op := token.ADD
+		if x.Tok == token.DEC {
+			op = token.SUB
+		}
+		lines := w.assign1(s, x.X, &ast.BinaryExpr{X: x.X, Op: op, Y: one})
+		return append(lines, next()...)
+	case *ast.AssignStmt:
+		lines := w.assignStmt(x)
+		return append(lines, next()...)
+	case *ast.IfStmt:
+		if x.Init != nil {
+			w.fail(s, "if with an init statement")
+		}
+		c, cty := w.expr(x.Cond, nil)
+		if cty.k != wkBool {
+			w.fail(s, "condition")
+		}
+		lines := w.takePre()
+		var els []ast.Stmt
+		if x.Else != nil {
+			els = []ast.Stmt{x.Else}
+		}
+		se, sl := w.saveEnv()
+		restore := func() { w.env, w.live = w.copyEnv(se, sl) }
+		if w.exits(x) {
+			// a branch may leave: the rest of the list continues both branches
+			kk := func() []string {
+				restore()
+				return next()
+			}
+			thn := w.block(x.Body.List, kk)
+			restore()
+			el := w.block(els, kk)
+			restore()
+			lines = append(lines, "if "+c+" then")
+			lines = append(lines, indent(thn, "  ")...)
+			lines = append(lines, "else")
+			lines = append(lines, indent(el, "  ")...)
+			return lines
+		}
+		vars := w.assigned(append(append([]ast.Stmt{}, x.Body.List...), els...))
+		if len(vars) == 0 {
+			// no visible effect except possible panics of the branches
+			vars = nil
+		}
+		var names []string
+		for _, v := range vars {
+			names = append(names, v.name)
+		}
+		fin := func() []string {
+			if len(names) == 0 {
+				return []string{"pure ()"}
+			}
+			return []string{"pure " + tuple(names)}
+		}
+		thn := w.block(x.Body.List, fin)
+		restore()
+		el := w.block(els, fin)
+		restore()
+		pat := "()"
+		if len(names) > 0 {
+			pat = tuple(names)
+		}
+		lines = append(lines, fmt.Sprintf("let %s ← (do", pat))
+		lines = append(lines, "  if "+c+" then")
+		lines = append(lines, indent(thn, "    ")...)
+		lines = append(lines, "  else")
+		lines = append(lines, indent(el, "    ")...)
+		lines[len(lines)-1] += ")"
+		return append(lines, next()...)
+	case *ast.ForStmt:
+		return w.forLoop(x, next)
+	}
+	w.fail(s, "unsupported statement")
+	return nil
+}
+
+func (w *wtr) copyEnv(e map[types.Object]wvar, l map[string]types.Object) (map[types.Object]wvar, map[string]types.Object) {
+	e2 := map[types.Object]wvar{}
+	for k, v := range e {
+		e2[k] = v
+	}
+	l2 := map[string]types.Object{}
+	for k, v := range l {
+		l2[k] = v
+	}
+	return e2, l2
+}
+
+// place: an assignable place — a variable, or a field of a struct variable
+type wplace struct {
+	blank bool
+	v     wvar
+	obj   types.Object
+	field string // "" for the variable itself
+	star  bool   // *v = … on a pointer to a slice
+	ty    wty
+	def   *ast.Ident // a new variable declared by `:=`
+}
+
+func (w *wtr) place(l ast.Expr, define bool) wplace {
+	switch x := l.(type) {
+	case *ast.ParenExpr:
+		return w.place(x.X, define)
+	case *ast.Ident:
+		if x.Name == "_" {
+			return wplace{blank: true}
+		}
+		if define && w.c.info.Defs[x] != nil {
+			return wplace{def: x}
+		}
+		o := w.obj(x)
+		v, ok := w.env[o]
+		if !ok || o == nil {
+			w.fail(l, "assignment to something that is not a local or a parameter")
+		}
+		if v.ty.k == wkStruct {
+			w.fail(l, "assignment to a whole struct variable")
+		}
+		return wplace{v: v, obj: o, ty: v.ty}
+	case *ast.StarExpr:
+		id, ok := x.X.(*ast.Ident)
+		if !ok {
+			w.fail(l, "assignment through a pointer that is not a variable")
+		}
+		o := w.obj(id)
+		v, ok := w.env[o]
+		if !ok || o == nil || v.ty.k != wkPtrL {
+			w.fail(l, "assignment through something that is not a pointer to a slice")
+		}
+		return wplace{v: v, obj: o, star: true, ty: wty{k: wkList, it: v.ty.it}}
+	case *ast.SelectorExpr:
+		id, ok := x.X.(*ast.Ident)
+		if !ok {
+			w.fail(l, "assignment through a pointer that is not a variable")
+		}
+		o := w.obj(id)
+		v, ok := w.env[o]
+		if !ok || o == nil || v.ty.k != wkStruct {
+			w.fail(l, "assignment to a field of something that is not a pointer parameter or a local &T{}")
+		}
+		f, ok := w.c.structs[v.ty.name].field(x.Sel.Name)
+		if !ok {
+			w.fail(l, "field that is not represented")
+		}
+		return wplace{v: v, obj: o, field: f.name, ty: f.ty}
+	}
+	w.fail(l, "assignment to an unsupported place")
+	return wplace{}
+}
+
+// store: the lines that put `val` into the place
+func (w *wtr) store(p wplace, val string, ty wty, at ast.Node) []string {
+	switch {
+	case p.blank:
+		return nil
+	case p.def != nil:
+		if ty.k == wkStruct {
+			// a struct value held in a variable: a copy (Go: a fresh &T{} or a parameter)
+		}
+		return []string{fmt.Sprintf("let %s : %s := %s", w.declare(p.def, ty), ty.lean(), val)}
+	}
+	if p.ty.k == wkPtr && ty.k == wkStruct && p.ty.name == ty.name {
+		val, ty = "(some "+val+")", p.ty // p = &T{…}: a non-nil pointer
+	}
+	if ty != p.ty {
+		w.fail(at, fmt.Sprintf("assignment of a value of type %v to a place of type %v", ty, p.ty))
+	}
+	if p.field != "" {
+		return []string{fmt.Sprintf("let %s := { %s with %s := %s }", p.v.name, p.v.name, leanName(p.field), val)}
+	}
+	if p.star {
+		// (a nil pointer panics; the slice it points to is replaced)
+		return []string{fmt.Sprintf("let _ ← Go.deref %s", p.v.name), fmt.Sprintf("let %s := some %s", p.v.name, wArg(val))}
+	}
+	return []string{fmt.Sprintf("let %s := %s", p.v.name, val)}
+}
+
+func (w *wtr) assign1(at ast.Stmt, lhs ast.Expr, rhs ast.Expr) []string {
+	p := w.place(lhs, false)
+	val, ty := w.expr(rhs, &p.ty)
+	lines := w.takePre()
+	return append(lines, w.store(p, val, ty, at)...)
+}
+
+func (w *wtr) assignStmt(x *ast.AssignStmt) []string {
+	define := x.Tok == token.DEFINE
+	if op, ok := assignOps[x.Tok]; ok {
+		if len(x.Lhs) != 1 || len(x.Rhs) != 1 {
+			w.fail(x, "assignment operator")
+		}
+		return w.assign1(x, x.Lhs[0], &ast.BinaryExpr{X: x.Lhs[0], Op: op, Y: x.Rhs[0]})
+	}
+	if x.Tok != token.ASSIGN && !define {
+		w.fail(x, "assignment")
+	}
+	// a, b = f(…)
+	if len(x.Lhs) > 1 && len(x.Rhs) == 1 {
+		c, ok := x.Rhs[0].(*ast.CallExpr)
+		if !ok {
+			w.fail(x, "multiple assignment from something that is not a call")
+		}
+		rs, tys := w.call(c)
+		if len(rs) != len(x.Lhs) {
+			w.fail(x, "number of results")
+		}
+		lines := w.takePre()
+		for i, l := range x.Lhs {
+			p := w.place(l, define)
+			lines = append(lines, w.store(p, rs[i], tys[i], x)...)
+		}
+		return lines
+	}
+	if len(x.Lhs) != len(x.Rhs) {
+		w.fail(x, "assignment")
+	}
+	if len(x.Lhs) == 1 {
+		p := w.place(x.Lhs[0], define)
+		var want *wty
+		if p.def == nil && !p.blank {
+			want = &p.ty
+		}
+		val, ty := w.expr(x.Rhs[0], want)
+		// a local that is a copy of a pointer PARAMETER or of a local struct would alias it
+		if ty.k == wkStruct {
+			if _, isLit := stripAddr(x.Rhs[0]).(*ast.CompositeLit); !isLit {
+				w.fail(x, "a second name for a struct value (aliasing)")
+			}
+		}
+		lines := w.takePre()
+		return append(lines, w.store(p, val, ty, x)...)
+	}
+	// a, b = e1, e2: all right-hand sides first
+	var vals []string
+	var tys []wty
+	var places []wplace
+	for _, l := range x.Lhs {
+		places = append(places, w.place(l, define))
+	}
+	for i, r := range x.Rhs {
+		var want *wty
+		if places[i].def == nil && !places[i].blank {
+			want = &places[i].ty
+		}
+		v, ty := w.expr(r, want)
+		if ty.k == wkStruct {
+			w.fail(x, "struct value in a parallel assignment")
+		}
+		vals, tys = append(vals, v), append(tys, ty)
+	}
+	lines := w.takePre()
+	var tmps []string
+	for range vals {
+		tmps = append(tmps, w.fresh())
+	}
+	lines = append(lines, fmt.Sprintf("let %s := %s", tuple(tmps), tuple(vals)))
+	for i, p := range places {
+		lines = append(lines, w.store(p, tmps[i], tys[i], x)...)
+	}
+	return lines
+}
+
+func stripAddr(e ast.Expr) ast.Expr {
+	for {
+		switch x := e.(type) {
+		case *ast.ParenExpr:
+			e = x.X
+			continue
+		case *ast.UnaryExpr:
+			if x.Op == token.AND {
+				e = x.X
+				continue
+			}
+		}
+		return e
+	}
+}
+
+// forLoop: `for { body }` (no init / condition / post), left by break or return.  The loop becomes
+// the auxiliary definition `<f>_loop<k> fuel state`, structurally recursive on the fuel; `none` when
+// the fuel runs out.  The state is the tuple of outer variables the body assigns.
+func (w *wtr) forLoop(x *ast.ForStmt, next func() []string) []string {
+	if x.Init != nil || x.Cond != nil || x.Post != nil {
+		w.fail(x, "for loop with a header (only `for { … }` in a whole function)")
+	}
+	if !w.fuel {
+		w.fail(x, "loop in a function that was not given fuel")
+	}
+	if w.brk != nil {
+		w.fail(x, "nested loop")
+	}
+	vars := w.assigned(x.Body.List)
+	var names, tys []string
+	for _, v := range vars {
+		names = append(names, v.name)
+		tys = append(tys, v.ty.leanArg())
+	}
+	if len(names) == 0 {
+		w.fail(x, "loop without state")
+	}
+	w.loops++
+	aux := fmt.Sprintf("%s_loop%d", w.f.lean, w.loops)
+	// what comes after the loop is translated once, as the continuation of `break`: the loop
+	// definition returns the state at the break (or the function's result, for a return inside)
+	// Result of the loop definition: Sum (function result) (state at break)
+	se, sl := w.saveEnv()
+	// every variable of the environment that the body reads but does not assign is a parameter
+	var ps []wvar
+	seen := map[string]bool{}
+	for _, n := range names {
+		seen[n] = true
+	}
+	ast.Inspect(x.Body, func(n ast.Node) bool {
+		if id, ok := n.(*ast.Ident); ok {
+			if v, ok := w.env[w.obj(id)]; ok && w.obj(id) != nil && !seen[v.name] {
+				seen[v.name] = true
+				ps = append(ps, v)
+			}
+		}
+		return true
+	})
+	sort.Slice(ps, func(i, j int) bool { return ps[i].name < ps[j].name })
+	var sig, args []string
+	for _, p := range ps {
+		sig = append(sig, fmt.Sprintf("(%s : %s)", p.name, p.ty.lean()))
+		args = append(args, p.name)
+	}
+	stTy := strings.Join(tys, " × ")
+	resTy := w.resultType()
+	state := tuple(names)
+	w.brk = func(string) []string { return []string{"pure (Sum.inr " + state + ")"} }
+	w.cont = func(string) []string {
+		return []string{fmt.Sprintf("%s fuel %s", strings.Join(append([]string{aux}, args...), " "), state)}
+	}
+	w.inLoop = true
+	body := w.block(x.Body.List, func() []string { return w.cont("") })
+	w.inLoop = false
+	w.brk, w.cont = nil, nil
+	w.env, w.live = se, sl
+	var b strings.Builder
+	fmt.Fprintf(&b, "def %s %s : Nat → %s → Option (Sum (%s) (%s))\n", aux, strings.Join(sig, " "), stTy, resTy, stTy)
+	fmt.Fprintf(&b, "  | 0, _ => none\n  | fuel + 1, %s => do\n", state)
+	for _, l := range body {
+		b.WriteString("    " + l + "\n")
+	}
+	w.aux = append(w.aux, b.String())
+	t := w.fresh()
+	lines := []string{fmt.Sprintf("let %s ← %s fuel %s", t, strings.Join(append([]string{aux}, args...), " "), state)}
+	lines = append(lines, fmt.Sprintf("match %s with", t))
+	lines = append(lines, fmt.Sprintf("| Sum.inl r_ => pure r_"))
+	lines = append(lines, fmt.Sprintf("| Sum.inr %s =>", state))
+	lines = append(lines, indent(next(), "  ")...)
+	return lines
+}
+
+func (w *wtr) resultType() string {
+	var all []string
+	for _, m := range w.f.mut {
+		all = append(all, w.f.params[m].ty.leanArg())
+	}
+	for _, r := range w.f.results {
+		all = append(all, r.leanArg())
+	}
+	return strings.Join(all, " × ")
+}
+
+// usesLoop: does the function (or a function of the package it calls) contain a `for` statement?
+func (c *wctx) usesLoop(fd *ast.FuncDecl, seen map[*ast.FuncDecl]bool) bool {
+	if seen[fd] {
+		return false
+	}
+	seen[fd] = true
+	found := false
+	ast.Inspect(fd.Body, func(n ast.Node) bool {
+		switch x := n.(type) {
+		case *ast.ForStmt, *ast.RangeStmt:
+			found = true
+		case *ast.CallExpr:
+			switch f := x.Fun.(type) {
+			case *ast.Ident:
+				if _, ok := c.info.Uses[f].(*types.Func); ok {
+					if d := c.findFunc("", f.Name); d != nil && c.usesLoop(d, seen) {
+						found = true
+					}
+				}
+			case *ast.SelectorExpr:
+				if fo, ok := c.info.Uses[f.Sel].(*types.Func); ok {
+					if sig, ok := fo.Type().(*types.Signature); ok && sig.Recv() != nil {
+						rt := sig.Recv().Type()
+						if p, ok := rt.(*types.Pointer); ok {
+							rt = p.Elem()
+						}
+						if n, ok := rt.(*types.Named); ok {
+							if d := c.findFunc(n.Obj().Name(), f.Sel.Name); d != nil && c.usesLoop(d, seen) {
+								found = true
+							}
+						}
+					}
+				}
+			}
+		}
+		return !found
+	})
+	return found
+}
+
+// translate: one function or method
+func (c *wctx) translate(key string, fd *ast.FuncDecl) (*wfunc, string) {
+	f := &wfunc{key: key, lean: key}
+	w := &wtr{c: c, f: f, fd: fd, env: map[types.Object]wvar{}, live: map[string]types.Object{}}
+	ast.Inspect(fd.Body, func(n ast.Node) bool {
+		switch n.(type) {
+		case *ast.FuncLit, *ast.GoStmt, *ast.DeferStmt, *ast.SwitchStmt, *ast.TypeSwitchStmt, *ast.SelectStmt, *ast.LabeledStmt, *ast.RangeStmt, *ast.SendStmt:
+			w.fail(n, "unsupported construct")
+		}
+		return true
+	})
+	var fields []*ast.Field
+	if fd.Recv != nil {
+		fields = append(fields, fd.Recv.List...)
+	}
+	fields = append(fields, fd.Type.Params.List...)
+	for _, fl := range fields {
+		if len(fl.Names) == 0 {
+			w.fail(fl, "unnamed parameter")
+		}
+		for _, nm := range fl.Names {
+			o := c.info.Defs[nm]
+			if o == nil {
+				w.fail(nm, "parameter")
+			}
+			ty, ok := c.typeOf(o.Type())
+			if !ok {
+				w.fail(nm, "parameter of an unsupported type")
+			}
+			ptr := false
+			if ty.k == wkPtr {
+				ty, ptr = wty{k: wkStruct, name: ty.name}, true // non-nil: see the header comment
+			}
+			n := leanName(nm.Name)
+			if nm.Name == "_" {
+				w.fail(nm, "blank parameter")
+			}
+			f.params = append(f.params, wparam{name: n, obj: o, ty: ty, ptr: ptr})
+			w.env[o] = wvar{n, ty}
+			w.live[n] = o
+		}
+	}
+	if fd.Type.Results != nil {
+		for _, fl := range fd.Type.Results.List {
+			if len(fl.Names) > 0 {
+				w.fail(fl, "named result")
+			}
+			ty, ok := c.typeOf(c.info.Types[fl.Type].Type)
+			if !ok || ty.k == wkStruct || ty.k == wkPtr {
+				w.fail(fl, "result of an unsupported type")
+			}
+			f.results = append(f.results, ty)
+		}
+	}
+	f.fuel = c.usesLoop(fd, map[*ast.FuncDecl]bool{})
+	w.fuel = f.fuel
+	// the receiver is dereferenced by the first statement (needed by callers that hold a nil-able pointer)
+	if fd.Recv != nil && len(fd.Body.List) > 0 {
+		ro := f.params[0].obj
+		var first ast.Node
+		switch s := fd.Body.List[0].(type) {
+		case *ast.IfStmt:
+			if s.Init == nil {
+				first = s.Cond
+			}
+		case *ast.AssignStmt:
+			if len(s.Rhs) == 1 {
+				first = s.Rhs[0]
+			}
+		}
+		if first != nil {
+			shortCircuit := false
+			ast.Inspect(first, func(n ast.Node) bool {
+				if be, ok := n.(*ast.BinaryExpr); ok && (be.Op == token.LAND || be.Op == token.LOR) {
+					shortCircuit = true
+				}
+				return true
+			})
+			ast.Inspect(first, func(n ast.Node) bool {
+				if sel, ok := n.(*ast.SelectorExpr); ok && !shortCircuit {
+					if id, ok := sel.X.(*ast.Ident); ok && c.info.Uses[id] == ro {
+						if fv, ok := c.info.Uses[sel.Sel].(*types.Var); ok && fv.IsField() {
+							f.derefFirst = true
+						}
+					}
+				}
+				return true
+			})
+		}
+	}
+	// which pointer parameters does the function update?
+	mut := map[int]bool{}
+	pidx := func(e ast.Expr) int {
+		if id, ok := e.(*ast.Ident); ok {
+			for i, p := range f.params {
+				if p.obj == w.obj(id) && p.obj != nil {
+					return i
+				}
+			}
+		}
+		return -1
+	}
+	ast.Inspect(fd.Body, func(n ast.Node) bool {
+		switch a := n.(type) {
+		case *ast.AssignStmt:
+			for _, l := range a.Lhs {
+				if sel, ok := l.(*ast.SelectorExpr); ok {
+					if i := pidx(sel.X); i >= 0 {
+						mut[i] = true
+					}
+				}
+				if st, ok := l.(*ast.StarExpr); ok {
+					if i := pidx(st.X); i >= 0 {
+						mut[i] = true
+					}
+				}
+			}
+		case *ast.IncDecStmt:
+			if sel, ok := a.X.(*ast.SelectorExpr); ok {
+				if i := pidx(sel.X); i >= 0 {
+					mut[i] = true
+				}
+			}
+		case *ast.CallExpr:
+			if cf := w.calleeOf(a); cf != nil {
+				args := a.Args
+				if sel, isSel := a.Fun.(*ast.SelectorExpr); isSel {
+					args = append([]ast.Expr{sel.X}, a.Args...)
+				}
+				for _, m := range cf.mut {
+					if m < len(args) {
+						if i := pidx(args[m]); i >= 0 {
+							mut[i] = true
+						}
+					}
+				}
+			}
+		}
+		return true
+	})
+	for i, p := range f.params {
+		if mut[i] {
+			if !p.ptr && p.ty.k != wkPtrL {
+				w.fail(fd.Name, "assignment to a field of a struct parameter passed by value")
+			}
+			f.mut = append(f.mut, i)
+		}
+	}
+	if len(f.mut)+len(f.results) == 0 {
+		w.fail(fd.Name, "a function without results or effects")
+	}
+	var k func() []string
+	if len(f.results) == 0 {
+		k = func() []string { return []string{w.retLine(nil)} }
+	} else {
+		k = func() []string {
+			fail(key + ": control reaches the end of a function with results")
+			return nil
+		}
+	}
+	body := w.block(fd.Body.List, k)
+	var sig []string
+	if f.fuel {
+		sig = append(sig, "(fuel : Nat)")
+	}
+	for _, p := range f.params {
+		sig = append(sig, fmt.Sprintf("(%s : %s)", p.name, p.ty.lean()))
+	}
+	rt := w.resultType()
+	var b strings.Builder
+	for _, a := range w.aux {
+		b.WriteString(a + "\n")
+	}
+	where := "function " + fd.Name.Name
+	if fd.Recv != nil {
+		where = "method (" + src(fd.Recv.List[0].Type) + ")." + fd.Name.Name
+	}
+	fmt.Fprintf(&b, "/-- %s (%s) -/\n", where, filepath.Base(fset.Position(fd.Pos()).Filename))
+	fmt.Fprintf(&b, "def %s %s : Option (%s) := do\n", f.lean, strings.Join(sig, " "), rt)
+	for _, l := range body {
+		b.WriteString("  " + l + "\n")
+	}
+	return f, b.String()
+}
+
+// writeWhole appends `namespace W … end W` with the whole-function translations of the targets.
+func writeWhole(b *strings.Builder, info *types.Info, files []*ast.File, targets [][2]string) {
+	c := newWctx(info, files)
+	var notes []string
+	for _, t := range targets {
+		key := wkey(t[0], t[1])
+		func() {
+			defer func() {
+				if r := recover(); r != nil {
+					msg := fmt.Sprint(r)
+					if ge, ok := r.(groupError); ok {
+						msg = ge.msg
+					}
+					msg = strings.ReplaceAll(msg, "\n", " ")
+					notes = append(notes, fmt.Sprintf("-- cannot translate W.%s: %s", key, msg))
+					fmt.Fprintf(os.Stderr, "extract: funcs: cannot translate W.%s: %s\n", key, msg)
+				}
+			}()
+			c.need(t[0], t[1])
+		}()
+	}
+	b.WriteString("/-! ## whole functions: control skeleton, panics (`none`), calls; see GoSem.lean -/\nnamespace W\n\n")
+	for _, n := range c.sorder {
+		b.WriteString(c.structText(c.structs[n]) + "\n")
+	}
+	for _, d := range c.defs {
+		b.WriteString(d + "\n")
+	}
+	for _, n := range notes {
+		b.WriteString(n + "\n")
+	}
+	if len(notes) > 0 {
+		b.WriteString("\n")
+	}
+	b.WriteString("end W\n\n")
+}
+
+// the whole functions that are translated (callees are translated on demand, before their callers)
+var wTargets = [][2]string{
+	{"VLenArray", "get"},
+	{"SlimTrie", "getLabelIdxOfKey"},
+	{"SlimTrie", "getLeftChildID"},
+	{"SlimTrie", "getLeafIndex"},
+	{"SlimTrie", "getLeafPrefix"},
+	{"SlimTrie", "getNode"},
+	{"SlimTrie", "initVars"},
+	{"SlimTrie", "getIthLeafBytes"},
+	{"SlimTrie", "cmpLeafPrefix"},
+	{"SlimTrie", "rightMost"},
+	{"SlimTrie", "leftMost"},
 }
